@@ -266,6 +266,72 @@ theorem C20_full : C20_statement :=
   ⟨C20_fanout_once, C20_exactly_once_in_order, C20_handover, C20_add_preserves_existing, C20_duplicate_noop,
     C20_unknown_ignored, C20_unsupported_ignored, C20_value_extraction⟩
 
+/-! ## 7. Message content is unconstrained: no data-dependent skip (appended; nothing above is changed)
+
+Every statement above quantifies over arbitrary `Msg` values — no hypothesis mentions a timestamp or a value — so
+they already cover repeated, decreasing, far-apart and cross-component-equal timestamps and repeated values.  The
+corollaries below say so explicitly; `C20_message_path_unconditional` ties the `take` event, which fans out whatever
+message is at the head of the queue, to the current source: the body of the streaming task's `async for` loop and the
+fan-out function contain no branch that reads message content (of this or an earlier message) or that can skip. -/
+
+/-- Read off the source on every run (`Extracted.DataSourcing.messagePath`, `fanoutBody`; taint analysis of the loop
+body of `_handle_data_stream` and of `process_msg`): the raw API stream is iterated; each received message object is
+handed to the fan-out exactly once, at the top level of the loop body, followed by an unconditional `await`; no `if`,
+`match`, loop, handler, conditional expression, `continue`, `break`, `return` or `raise` on that path reads message
+content — including content kept from earlier messages — or can skip; the fan-out sends, once per sender of the
+snapshot, `Sample(msg.timestamp, Quantity(extractor(msg)))`. -/
+def C20_message_path_statement : Prop :=
+  messagePath.streamUnfiltered = true ∧ messagePath.schedulesOnce = true ∧
+  messagePath.passesReceivedMessage = true ∧ messagePath.awaitsAfterScheduling = true ∧
+  (∀ g ∈ messagePath.guards, g.readsMessage = false ∧ g.canSkip = false) ∧
+  fanoutBody.onePerSender = true ∧ fanoutBody.sampleTimestamp = .msgAttr "timestamp" ∧
+  fanoutBody.sampleValue = .quantityOfExtractor ∧
+  (∀ g ∈ fanoutBody.guards, g.readsMessage = false ∧ g.canSkip = false)
+
+theorem C20_message_path_unconditional :
+    takeFaithful messagePath fanoutBody = true ∧ C20_message_path_statement := by
+  have h : takeFaithful messagePath fanoutBody = true := by decide
+  refine ⟨h, ?_⟩
+  simp only [takeFaithful, Bool.and_eq_true, List.all_eq_true, decide_eq_true_eq] at h
+  obtain ⟨⟨⟨⟨⟨⟨⟨⟨h1, h2⟩, h3⟩, h4⟩, h5⟩, h6⟩, h7⟩, h8⟩, h9⟩ := h
+  have benign : ∀ g : Guard, guardBenign g = true → g.readsMessage = false ∧ g.canSkip = false := by
+    intro g hg
+    cases hr : g.readsMessage <;> cases hk : g.canSkip <;> simp [guardBenign, hr, hk] at hg ⊢
+  exact ⟨h1, h2, h3, h4, fun g hg => benign g (h5 g hg), h6, h7, h8, fun g hg => benign g (h9 g hg)⟩
+
+/-- The timestamps delivered on a live channel are the timestamps of the messages, verbatim and in arrival order —
+whether they increase, repeat or go backwards. -/
+theorem C20_timestamps_verbatim (cfg : Config) (pre post : List Event) (ch : Chan)
+    (hl : Live (final cfg State.init pre) ch)
+    (hempty : ((final cfg State.init pre).comps ch.cid).queue = [])
+    (hd : ((final cfg State.init (pre ++ post)).comps ch.cid).queue = []) :
+    (delivered ch (trace cfg (final cfg State.init pre) post)).map (·.ts)
+      = (msgsOf ch.cid post).map (·.ts) := by
+  rw [C20_drained_complete cfg pre post ch hl hd]
+  simp [owed, hempty, sampleOf, Function.comp_def]
+
+/-- A message that the API produces `n` times in a row (same timestamp, same values — a replay, or a component
+reporting twice within its clock resolution) yields `n` samples: nothing is deduplicated. -/
+theorem C20_repeated_message_delivered_each_time (cfg : Config) (pre post : List Event) (ch : Chan) (m : Msg)
+    (n : Nat) (hl : Live (final cfg State.init pre) ch)
+    (hempty : ((final cfg State.init pre).comps ch.cid).queue = [])
+    (hd : ((final cfg State.init (pre ++ post)).comps ch.cid).queue = [])
+    (hm : msgsOf ch.cid post = List.replicate n m) :
+    delivered ch (trace cfg (final cfg State.init pre) post) = List.replicate n (sampleOf cfg ch m) := by
+  rw [C20_drained_complete cfg pre post ch hl hd, hm]
+  simp [owed, hempty]
+
+/-- Two consecutive messages with the same timestamp and different values: two samples, both with that timestamp,
+in arrival order. -/
+theorem C20_same_timestamp_both_delivered (cfg : Config) (pre post : List Event) (ch : Chan) (m₁ m₂ : Msg)
+    (hl : Live (final cfg State.init pre) ch)
+    (hempty : ((final cfg State.init pre).comps ch.cid).queue = [])
+    (hd : ((final cfg State.init (pre ++ post)).comps ch.cid).queue = [])
+    (hm : msgsOf ch.cid post = [m₁, m₂]) (_hts : m₂.ts ≤ m₁.ts) :
+    delivered ch (trace cfg (final cfg State.init pre) post) = [sampleOf cfg ch m₁, sampleOf cfg ch m₂] := by
+  rw [C20_drained_complete cfg pre post ch hl hd, hm]
+  simp [owed, hempty]
+
 /-! ## Non-vacuity: concrete schedules satisfying the hypotheses, with something delivered -/
 
 namespace C20_examples
@@ -306,5 +372,21 @@ example : cfg.category 77 = none := by decide +kernel
 example : cfg.category 9 = some "BATTERY" ∧ supported "BATTERY" "ACTIVE_POWER" = false := by decide +kernel
 -- hypotheses of `C20_fanout_once`: a running task with a message to take
 example : ((final cfg State.init pre).comps 4).active = some [("ACTIVE_POWER_PHASE_2", [a])] := by decide +kernel
+
+-- hypotheses of `C20_timestamps_verbatim` / `C20_repeated_message_delivered_each_time` /
+-- `C20_same_timestamp_both_delivered`: `a` live with nothing waiting; then the SAME message twice, an earlier
+-- timestamp, and the first message again — four samples, nothing deduplicated or dropped
+def pre0 : List Event := [.request a, .start 4]
+def dup : List Event := [.message 4 (m 5), .message 4 (m 5), .take 4, .take 4]
+def back : List Event := [.message 4 (m 5), .message 4 (m 5), .take 4, .message 4 (m 2), .take 4, .message 4 (m 5),
+  .take 4, .take 4]
+example : Live (final cfg State.init pre0) a ∧ ((final cfg State.init pre0).comps 4).queue = [] ∧
+    ((final cfg State.init (pre0 ++ dup)).comps 4).queue = [] ∧ msgsOf a.cid dup = List.replicate 2 (m 5) ∧
+    ((final cfg State.init (pre0 ++ back)).comps 4).queue = [] := by
+  refine ⟨by decide +kernel, by decide +kernel, by decide +kernel, rfl, by decide +kernel⟩
+example : delivered a (trace cfg (final cfg State.init pre0) dup) = [⟨5, some (11/2)⟩, ⟨5, some (11/2)⟩] := by
+  decide +kernel
+example : delivered a (trace cfg (final cfg State.init pre0) back)
+    = [⟨5, some (11/2)⟩, ⟨5, some (11/2)⟩, ⟨2, some (5/2)⟩, ⟨5, some (11/2)⟩] := by decide +kernel
 
 end C20_examples
